@@ -151,6 +151,13 @@ def _ptr_value(n, env):
         v = env.get(n["n"])
         if isinstance(v, tuple) and len(v) == 3 and v[0] == "P":
             return v
+        return None
+    if isinstance(n, dict) and n.get("k") in ("mem", "idx") and env.get("$dyn"):
+        # a pointer-valued member / element (`reqs[i].start`) holding a modelled pointer
+        d = dyn_name(n, env)
+        v = env.get(d) if d is not None else None
+        if isinstance(v, tuple) and len(v) == 3 and v[0] == "P":
+            return v
     return None
 
 
@@ -325,6 +332,11 @@ def run_region(fn, start, stop_blocks, env, events=None, max_steps=5000, call_ho
                     events.append((e.get("fn"), args, e.get("l")))
                 if call_hook:
                     call_hook(e, args, env)
+                impl = env.get("$impl", {}).get(e.get("fn"))
+                if impl is not None and not call_hook:
+                    if any(a is None for a in args):
+                        raise Unsupported("argument of %s" % e.get("fn"))
+                    impl(*args)
             elif k in ("asg", "un"):
                 try:
                     evs(e, env, events)
